@@ -237,7 +237,10 @@ class Check:
         self.notes = {}
         import glob
         for f in glob.glob(os.path.join(VERIF, "replays", "%s-*.json" % pid)):
-            os.remove(f)
+            try:
+                os.remove(f)
+            except FileNotFoundError:     # another run of the same check removed it first
+                pass
 
     # ---- coverage bookkeeping
     def add_tlc(self, r, label=None):
